@@ -459,4 +459,30 @@ def check(ctx: Ctx) -> str:
     from .c02 import call_emission_rule
 
     call_emission_rule(ctx, "R11")
+    ctx.rule("R12", "a `set` reaches the render context only from the top level: every path of pop_assign_tracking that writes context.vars / exported_vars decided frame.toplevel true (loop and block frames write their own dicts, any other scope writes nothing); visit_Name records stored names only in those three kinds of frame")
+    from ..emitrules import get_paths as _gp12, short_flags as _sf12
+
+    n12 = 0
+    for p_, sk_ in _gp12(ctx, ["pop_assign_tracking"]).get("pop_assign_tracking", []):
+        if p_.outcome != "normal" or sk_.error or "context." not in sk_.text:
+            continue
+        n12 += 1
+        top = p_.decisions.get("frame.toplevel")
+        ctx.check(top is True, f"context-store:{n12}", "compiler:CodeGenerator.pop_assign_tracking", f"context store with frame.toplevel={top}",
+                  f"pop_assign_tracking writes `{sk_.text.strip().splitlines()[0][:60]}` on a path that did not establish frame.toplevel [{_sf12(p_, 6)}]: a `{{% set %}}` inside a with / macro / filter block / set block is then copied into the render context and is visible to later, unrelated scopes",
+                  "src/jinja2/compiler.py")
+    ctx.floor("context-writing paths of pop_assign_tracking", n12, 2)
+    vn = repo.func("compiler:CodeGenerator.visit_Name")
+    adds = [c for c in astq.calls(vn.node) if astq.attr_tail(c) == "add" and "_assign_stack" in ast.unparse(c.func)]
+    ctx.need(bool(adds), "visit_Name no longer records stored names")
+    tab = None
+    for c in adds:
+        ats = astq.guard_atoms(vn.node, c)
+        kinds = {a_[0] for a_ in ats if a_[0] in ("frame.toplevel", "frame.loop_frame", "frame.block_frame")}
+        # the three frame kinds appear as a disjunction; guard_atoms keeps a disjunction whole
+        disj = [a_ for a_ in ats if all(k in a_[0] for k in ("frame.toplevel", "frame.loop_frame", "frame.block_frame")) and a_[1]]
+        ctx.check(bool(disj) or bool(kinds), "visit_Name:frame-kinds", "compiler:CodeGenerator.visit_Name", f"stored names recorded under {ats}",
+                  f"visit_Name records a stored name for assignment tracking under {ats}: outside toplevel / loop / block frames nothing may be recorded, or pop_assign_tracking exports a scope-local `set`",
+                  vn.loc(c))
+
     return __doc__ or ""
